@@ -43,9 +43,9 @@ def _run_cases(vd, ev, binp, sub, cases, work, extra, label):
     return summ
 
 
-def run(tier, pid="C19"):
-    ev = Evidence(pid, tier, "model_checking")
-    vd = Verdict(pid, ev)
+def run(tier, pid="C19", ev=None, vd=None, finish=True):
+    ev = ev or Evidence(pid, tier, "model_checking")
+    vd = vd or Verdict(pid, ev)
     bins = vlib.build_harness(["vh_plan"])
     work = vlib.shm_dir(pid.lower())
     try:
@@ -107,16 +107,17 @@ def run(tier, pid="C19"):
             ev.add(evaluations=m, traces_validated_against_impl=m)
             done += m
             k += 1
-        ev.add(rule="TLC enumerates all patterns x texts over {a,b,*,?,.,/} up to length L (3 quick / 4 thorough), all paths of "
+        if pid == "C19":
+          ev.add(rule="TLC enumerates all patterns x texts over {a,b,*,?,.,/} up to length L (3 quick / 4 thorough), all paths of "
                     "the Rels universe, all src/dst maps over 3 paths x 3 metas x 6 exclude lists x delete, all listings of <= 2 "
                     "records over 13 names x 3 sizes x 4 timestamps; every case runs on the real function. non-trivial = pattern "
                     "matches some but not all texts / plan has >= 1 action / listing has >= 1 record. Plus seeded larger cases "
                     "validated by TLC against the definitions.", exhaustive=True)
-        ev.assumptions += ["plan.rs / meta.rs compiled into the harness unchanged via #[path]",
-                           "'sorted' is PathBuf (component-wise) order (DESIGN A11)"]
+          ev.assumptions += ["plan.rs / meta.rs compiled into the harness unchanged via #[path]",
+                             "'sorted' is PathBuf (component-wise) order (DESIGN A11)"]
     finally:
         shutil.rmtree(work, ignore_errors=True)
-    return vd.finish()
+    return vd.finish() if finish else 0
 
 
 def replay(path):
